@@ -23,7 +23,13 @@ def node_choices(n):
         for k in range(n + 1):
             for deps in itertools.permutations(range(n), k) if n <= 2 else itertools.combinations(range(n), k):
                 ch.append((kind, tuple(deps)))
-    return ch + [(k, ()) for k in LEAF_KINDS]
+    # `alias`: the file exists but defines ANOTHER node's library (with a different body) - not found under its own name, and
+    # it must not stand in for that other node, whatever is imported first
+    return ch + [(k, ()) for k in LEAF_KINDS] + ([("alias", (j,)) for j in range(n)] if n >= 2 else [])
+
+
+def well_formed(g):
+    return all(not (node[0] == "alias" and node[1][0] == i) for i, node in enumerate(g))
 
 
 def lib_text(i, node):
@@ -35,6 +41,9 @@ def lib_text(i, node):
         return "(define-library (l%d) (import (scheme base) %s) (export v%d) (begin (define v%d (car '()))))" % (i, imports, i, i)
     if kind == "wrongname":
         return "(define-library (other%d) (export))" % i
+    if kind == "alias":
+        j = deps[0]
+        return "(define-library (l%d) (import (scheme base)) (export v%d) (begin (define v%d %d)))" % (j, j, j, 90 + j)
     if kind == "broken":
         return "(define-library (l%d) (export" % i
     return None
@@ -50,7 +59,7 @@ def expect(graph, root):
             return "cyclic"
         kind, deps = graph[x]
         if kind == "missing": return "libNotFound"
-        if kind == "wrongname": return "libNotFound"
+        if kind in ("wrongname", "alias"): return "libNotFound"
         if kind == "broken": return "syntax"
         if kind == "unreadable": return "io"
         for d in deps:
@@ -83,8 +92,9 @@ def run(rep, tier, rng):
     configs = []
     for n in (1, 2):
         for g in itertools.product(node_choices(n), repeat=n):
-            configs.append(list(g))
-    c3 = list(itertools.product(node_choices(3), repeat=3))
+            if well_formed(g):
+                configs.append(list(g))
+    c3 = [g for g in itertools.product(node_choices(3), repeat=3) if well_formed(g)]
     rng.shuffle(c3)
     configs += [list(g) for g in c3[:(1200 if tier == "quick" else len(c3))]]
     cases, meta = [], {}
@@ -96,29 +106,46 @@ def run(rep, tier, rng):
         if n == 3 and tier == "quick":
             hists = rng.sample(hists, 2)
         for as_files in (True, False):
-            if not as_files and any(x[0] in ("unreadable", "broken", "wrongname") for x in g):
+            if not as_files and any(x[0] in ("unreadable", "broken", "wrongname", "alias") for x in g):
                 continue   # registered sources cannot be unreadable; a broken/wrong-name source fails at registration
             if not as_files and rng.random() < (0.7 if tier == "quick" else 0.0):
                 continue
             for h in hists:
                 cid = "g%d" % k; k += 1
-                forms = [">(import (l%d))" % x for x in h]
+                # after an import that must succeed, the library's own value is probed (it is v<i> = i, never another file's)
+                # (import declarations must precede every other form, so the probes come last)
+                forms, probes = [], []
+                for x in h:
+                    forms.append(">(import (l%d))" % x); probes.append(None)
+                for x in sorted(set(h)):
+                    if expect(g, x) == "ok":
+                        forms.append(">v%d" % x); probes.append("V i:%d" % x)
                 cases.append((cid, "libs", ["nostd"] + fields_for(g, as_files) + forms))
-                meta[cid] = (g, h, as_files)
+                meta[cid] = (g, h, as_files, probes)
     impl = C.run_hx(cases)
     model = C.run_driver(cases)
     kinds = {}
     for cid, _, f in cases:
-        g, h, as_files = meta[cid]
+        g, h, as_files, probes = meta[cid]
         a, b = impl.get(cid, []), model.get(cid, [])
         rep.count()
         rep.nontrivial((tuple(g), h, as_files))
         if len(rep.cov["samples"]) < 4 and len(g) == 3 and as_files:
             rep.sample({"graph": g, "attempts": h, "files": f[1:1 + len(g)], "implementation": a})
         bad = False
-        for j, x in enumerate(h):
-            want = expect(g, x)
+        attempts = iter(h)
+        for j, pr in enumerate(probes):
             got = a[j] if j < len(a) else "?"
+            if pr is not None:
+                if got != pr:
+                    rep.violation({"what": "an imported library does not have the contents of its own file", "graph": g,
+                                   "attempts": h, "form": f[1 + len([x for x in f[1:] if not x.startswith(">")]) + j],
+                                   "expected": pr, "implementation": a})
+                    bad = True
+                    break
+                continue
+            x = next(attempts)
+            want = expect(g, x)
             gk = "ok" if got == "N" else (got.split(" ")[1] if got.startswith("E ") else got)
             kinds[want] = kinds.get(want, 0) + 1
             if gk != want:
@@ -137,7 +164,7 @@ def main(tier, seed):
     rep = C.Report(PROP, tier, seed)
     rng = random.Random(seed)
     rep.cov["rule"] = ("library graphs on 1-3 nodes, each node healthy or with a faulting body and any subset (ordered for n<=2) of "
-                       "dependencies, or missing / defining another name / syntactically broken / not UTF-8; all 1- and 2-node "
+                       "dependencies, or missing / defining another name (an unused one, or ANOTHER NODE's name with a different body) / syntactically broken / not UTF-8; all 1- and 2-node "
                        "configurations x all histories of 3 attempts, 1200 sampled (thorough: all) 3-node configurations x "
                        "histories of 2 attempts; as files under a program directory that is not the working directory, and as "
                        "registered sources; distinct = (graph, history, variant)")
